@@ -5,8 +5,11 @@ package c09
 
 import (
 	"context"
+	"encoding/json"
 	"fmt"
 	"math"
+	"net/http"
+	"net/http/httptest"
 	"runtime"
 	"strconv"
 	"strings"
@@ -25,6 +28,8 @@ import (
 	"github.com/kubewharf/kubegateway/pkg/flowcontrols"
 	"github.com/kubewharf/kubegateway/pkg/flowcontrols/flowcontrol"
 	"github.com/kubewharf/kubegateway/pkg/flowcontrols/remote"
+	"github.com/kubewharf/kubegateway/pkg/ratelimiter/clientsets"
+	"k8s.io/client-go/rest"
 	"verifharness/internal/findings"
 	"verifharness/internal/stats"
 )
@@ -77,7 +82,7 @@ func (s *stubCS) ShardIDFor(cluster string) (int, error) { return 0, nil }
 // round could run concurrently with a scheduled one - two concurrent callers of remoteWrapper.Sync do not exist in
 // the gateway - and the case would depend on timing.
 func (s *stubCS) IsReady(cluster string) bool { return s.ready && goid() == s.owner }
-func (s *stubCS) ClientID() string                       { return "gw-1" }
+func (s *stubCS) ClientID() string            { return "gw-1" }
 
 type reply struct {
 	Err   bool
@@ -878,11 +883,98 @@ func TestPropMissingReplies(t *testing.T) {
 				}
 			}(c)
 		}
+		// side by side with the above: the gateway's view of the limiter server's readiness, from the REAL client set
+		hbFail := rapid.SampledFrom([]string{"status-503", "hang-up"}).Draw(t, "heartbeatFailure")
+		wg.Add(1)
+		go func() {
+			defer wg.Done()
+			if msg := heartbeatScenario(hbFail); msg != "" {
+				mu.Lock()
+				problems = append(problems, msg)
+				mu.Unlock()
+			}
+		}()
 		wg.Wait()
 		if len(problems) > 0 {
 			t.Fatalf("%s", strings.Join(problems, "\n"))
 		}
 	})
+}
+
+var hbSub = stats.NewSub("readiness-follows-heartbeats", "real gateway-side client set (verif constructor; discovery and heartbeat rounds driven by hand at their real periods, 2 s and 1 s) against two loopback servers: discovery keeps answering and keeps naming the same leader, the leader's heartbeat endpoint answers, then fails for up to 10 s (503 or hang-up), then answers again; oracle: ready after the first good heartbeat; NOT ready at the latest 10 s after heartbeats started failing (the gateway's bound is 5 s) although discovery rounds keep succeeding; ready again after the next good heartbeat; runs side by side with count-missing-replies; non-trivial = all; distinct by the failure kind")
+
+// heartbeatScenario returns "" or a violation message.
+func heartbeatScenario(failKind string) string {
+	var down int32
+	leader := httptest.NewServer(http.HandlerFunc(func(w http.ResponseWriter, r *http.Request) {
+		if atomic.LoadInt32(&down) == 1 {
+			if failKind == "hang-up" {
+				if hj, ok := w.(http.Hijacker); ok {
+					if c, _, err := hj.Hijack(); err == nil {
+						c.Close()
+						return
+					}
+				}
+			}
+			w.WriteHeader(http.StatusServiceUnavailable)
+			return
+		}
+		w.WriteHeader(http.StatusOK)
+		_, _ = w.Write([]byte("ok"))
+	}))
+	defer leader.Close()
+	discovery := httptest.NewServer(http.HandlerFunc(func(w http.ResponseWriter, r *http.Request) {
+		info := proxyv1alpha1.RateLimitServerInfo{Server: "replica", ShardCount: 1, Endpoints: []proxyv1alpha1.EndpointInfo{{Leader: leader.URL, ShardID: 0}}}
+		b, _ := json.Marshal(info)
+		w.Header().Set("Content-Type", "application/json")
+		_, _ = w.Write(b)
+	}))
+	defer discovery.Close()
+	cs := clientsets.VerifNewClientSets(&rest.Config{}, "gw-1", func(string) []string { return []string{discovery.URL} })
+	hbSub.Eval()
+	// the two loops by hand: a heartbeat round every second, a discovery round every other second
+	tick := 0
+	round := func() {
+		if tick%2 == 0 {
+			clientsets.VerifSync(cs)
+		}
+		clientsets.VerifHeartbeat(cs)
+		tick++
+	}
+	round()
+	if !cs.IsReady("c1") {
+		round()
+		if !cs.IsReady("c1") {
+			hbSub.Inconclusive()
+			return ""
+		}
+	}
+	atomic.StoreInt32(&down, 1)
+	failingFrom := time.Now()
+	notReadyAfter := time.Duration(0)
+	for time.Since(failingFrom) < 10*time.Second {
+		time.Sleep(time.Second)
+		round()
+		if !cs.IsReady("c1") {
+			notReadyAfter = time.Since(failingFrom)
+			break
+		}
+	}
+	if notReadyAfter == 0 {
+		return fmt.Sprintf("heartbeats to the leader of the shard have been failing (%s) for %.1f s while discovery keeps naming it, and the gateway still considers the limiter server ready for the upstream", failKind, time.Since(failingFrom).Seconds())
+	}
+	hbSub.Note("not ready %.1f s after heartbeats started failing (%s)", notReadyAfter.Seconds(), failKind)
+	atomic.StoreInt32(&down, 0)
+	for i := 0; i < 3 && !cs.IsReady("c1"); i++ {
+		time.Sleep(300 * time.Millisecond)
+		round()
+	}
+	if !cs.IsReady("c1") {
+		return "the leader answers heartbeats again but the gateway still considers the limiter server not ready"
+	}
+	hbSub.NonTrivial(stats.HashString(failKind))
+	hbSub.Class("heartbeats-" + failKind)
+	return ""
 }
 
 // TestKnownLocalRemoteOverlap replays the witness of the listed open finding and reports it as KNOWN-FINDING while it
